@@ -93,6 +93,13 @@ Definition chain_universe (seg : segment) : list string :=
 
 Definition chain_fuel (seg : segment) : nat := S (S (List.length (chain_universe seg))).
 
+(* the sub-group table an entry consults: a group leaves the sub-group expansion to its files *)
+Definition subgroups_for (seg : segment) (f : file_info) : list (string * list string) :=
+  match fi_kind f with
+  | KGroup => []
+  | _ => sections_subgroups seg
+  end.
+
 Section Emit.
   Variable rt : runtime.
   Variable sty : style.
@@ -145,7 +152,7 @@ Section Emit.
             (fun k ws =>
                do o1 <- emit_file k ws;
                do o2 <- (if reference_partial cfg then Ok ([], snd o1) else
-                         match lookup k (sections_subgroups seg) with
+                         match lookup k (subgroups_for seg f) with
                          | Some others =>
                              fold_out (fun other ws => chain n' (section :: stack) other base ws)
                                       others (snd o1)
